@@ -168,6 +168,29 @@ def run(ctx):
              for y0 in few for y1 in few if y0 <= y1]
     jobs += [("point", (chunk, vals)) for chunk in core.split(rects, 32)]
     part = core.fan_out(ctx, _dispatch, jobs)
+    # whole numbers too large for a double to hold exactly (step counts, 64-bit ticks): Python
+    # compares ints exactly, so must the helpers - no detour through float()
+    big = [(1 << 53) + k for k in (-1, 0, 1, 2, 3, 4)] + [10 ** 17 + k for k in (0, 1, 2, 3)]
+    for low in big:
+        for high in (h for h in big if h >= low):
+            for value in big:
+                for tol in (0, 1):
+                    for clause, msg in check_scalar(value, low, high, tol):
+                        part.violation(f"{clause}:big:{value}:{low}:{high}:{tol}", msg,
+                                       {"kind": "scalar", "case": [value, low, high, tol]})
+                    part.count("scalar_cases")
+                    part.count("big_int_cases")
+    for x_lo, x_hi, y_lo, y_hi in itertools.product(big[1:5], big[2:6], big[:2], big[3:5]):
+        if x_lo > x_hi:
+            continue
+        for point in itertools.product(big[:6], big[:6]):
+            for tol in (0, 1):
+                for clause, msg in check_point(point, ((x_lo, y_lo), (x_hi, y_hi)), tol):
+                    part.violation(f"{clause}:big:{point}:{x_lo}:{x_hi}:{y_lo}:{y_hi}:{tol}", msg,
+                                   {"kind": "point", "point": list(point),
+                                    "rect": [[x_lo, y_lo], [x_hi, y_hi]], "tol": tol})
+                part.count("point_cases")
+                part.count("big_int_cases")
     from .. import callforms              # pylint: disable=import-outside-toplevel
     part.merge(callforms.explore("C18"))
     cnt = part.counters
